@@ -58,7 +58,10 @@ type VFS struct {
 	counts   map[string]int
 	Injected int
 	Healed   bool
-	OnOp     func(kind, file string)
+	// Suspended: the fault plan is not applied (and its operation counters do not advance) - set while an oracle
+	// opens a *copy* of the directory, whose file operations are not part of the history under test.
+	Suspended bool
+	OnOp      func(kind, file string)
 }
 
 func newVFS() *VFS { return &VFS{counts: map[string]int{}, Record: true} }
@@ -76,6 +79,9 @@ func (v *VFS) Mark(p int, dump string) { v.rec(vfsOp{Kind: "mark", Mark: p, Note
 // (same kind, same file or any file for "*") number Ordinal .. Ordinal+Count-1 fail.
 func (v *VFS) shouldFail(kind, file string) bool {
 	f := v.Fault
+	if v.Suspended {
+		return false
+	}
 	if f == nil || f.Kind != kind || (f.File != "*" && f.File != file) {
 		return false
 	}
